@@ -317,6 +317,7 @@ class SelectorWorld:
             init = op["params"].get("initialize")
             try:
                 ok = (src is not None and sm is not None and not sm.get("retired_for_warm") and sm["ok_fits"] > 0
+                      and not sm.get("c08_threshold_reached")
                       and int(src.n_selected_) > 0 and isinstance(init, dict) and init.get("$prefix_of") == op["twin_from"]
                       # ... and the arrays it selected from still hold the same values
                       and sm.get("data_snap") is not None and sm["data_snap"][0] == self.heap.entries[sm["data"][0]]["snap"])
@@ -476,6 +477,15 @@ class SelectorWorld:
         if self.pid == "C08" and m.get("c08_threshold_reached") and not op.get("expect"):
             self.count("out_of_domain_after_threshold_stop")
             return
+        if self.pid == "C08" and op.get("warm") and not op.get("expect") and m.get("cold_params") is not None:
+            # a chain is continued with the parameters of its cold fit (only the request and
+            # the - unreached - threshold move); anything else is another search (domain guard
+            # for reduced traces)
+            now = {k: repr(v) for k, v in m["resolved"].items() if k not in ("n_to_select", "score_threshold", "score_threshold_type", "random_state")}
+            if now != m["cold_params"]:
+                self.count("out_of_domain_reparameterised_mid_chain")
+                m["retired"] = True
+                return
         if op.get("warm") and m.get("retired_for_warm") and op.get("retry_after_crash") and m.get("crashed_warm") and os.environ.get("HOSTSIM_WARM_AFTER_CRASH") == "1":
             pass  # experiment: the continuation that crashed is retried
         elif op.get("warm") and m.get("retired_for_warm") and not op.get("expect"):
@@ -659,6 +669,8 @@ class SelectorWorld:
                 m["c08_threshold_reached"] = True
         m["last_ok"] = (op, rec, n_before)
         m["last_n_selected"] = ns
+        if not warm:
+            m["cold_params"] = {k: repr(v) for k, v in m["resolved"].items() if k not in ("n_to_select", "score_threshold", "score_threshold_type", "random_state")}
         if warm and any(h.get("rejected_refit") for h in m["history"][:-1]):
             self.probe("warm_start_after_rejected_cold_refit_judged")
         self.after_ok_fit(name, obj, m, op, rec, X, y, n_before)
